@@ -724,7 +724,9 @@ var attrProfiles = []func() *astisub.StyleAttributes{
 	func() *astisub.StyleAttributes { return &astisub.StyleAttributes{} },
 	func() *astisub.StyleAttributes { return nil },
 	func() *astisub.StyleAttributes { return &astisub.StyleAttributes{SSAAlignment: astikit.IntPtr(2)} },
-	func() *astisub.StyleAttributes { return &astisub.StyleAttributes{SSAAlphaLevel: astikit.Float64Ptr(0.5)} },
+	func() *astisub.StyleAttributes {
+		return &astisub.StyleAttributes{SSAAlphaLevel: astikit.Float64Ptr(0.5)}
+	},
 	func() *astisub.StyleAttributes { return &astisub.StyleAttributes{SSAAngle: astikit.Float64Ptr(1)} },
 	func() *astisub.StyleAttributes { return &astisub.StyleAttributes{SSABackColour: astisub.ColorRed} },
 	func() *astisub.StyleAttributes { return &astisub.StyleAttributes{SSABold: astikit.BoolPtr(true)} },
@@ -741,21 +743,29 @@ var attrProfiles = []func() *astisub.StyleAttributes{
 	func() *astisub.StyleAttributes { return &astisub.StyleAttributes{SSAPrimaryColour: astisub.ColorGreen} },
 	func() *astisub.StyleAttributes { return &astisub.StyleAttributes{SSAScaleX: astikit.Float64Ptr(1)} },
 	func() *astisub.StyleAttributes { return &astisub.StyleAttributes{SSAScaleY: astikit.Float64Ptr(1)} },
-	func() *astisub.StyleAttributes { return &astisub.StyleAttributes{SSASecondaryColour: astisub.ColorWhite} },
+	func() *astisub.StyleAttributes {
+		return &astisub.StyleAttributes{SSASecondaryColour: astisub.ColorWhite}
+	},
 	func() *astisub.StyleAttributes { return &astisub.StyleAttributes{SSAShadow: astikit.Float64Ptr(1)} },
 	func() *astisub.StyleAttributes { return &astisub.StyleAttributes{SSASpacing: astikit.Float64Ptr(1)} },
 	func() *astisub.StyleAttributes { return &astisub.StyleAttributes{SSAStrikeout: astikit.BoolPtr(true)} },
 	func() *astisub.StyleAttributes { return &astisub.StyleAttributes{SSAUnderline: astikit.BoolPtr(true)} },
-	func() *astisub.StyleAttributes { return &astisub.StyleAttributes{SSAEffect: "fx", SSALayer: astikit.IntPtr(1), SSAMarked: astikit.BoolPtr(true)} },
-	func() *astisub.StyleAttributes { return &astisub.StyleAttributes{TTMLColor: astikit.StrPtr("red"), TTMLTextAlign: astikit.StrPtr("center")} },
-	func() *astisub.StyleAttributes { return &astisub.StyleAttributes{WebVTTStyles: []string{"::cue{}"}, WebVTTLines: 2, WebVTTWidth: "40%"} },
+	func() *astisub.StyleAttributes {
+		return &astisub.StyleAttributes{SSAEffect: "fx", SSALayer: astikit.IntPtr(1), SSAMarked: astikit.BoolPtr(true)}
+	},
+	func() *astisub.StyleAttributes {
+		return &astisub.StyleAttributes{TTMLColor: astikit.StrPtr("red"), TTMLTextAlign: astikit.StrPtr("center")}
+	},
+	func() *astisub.StyleAttributes {
+		return &astisub.StyleAttributes{WebVTTStyles: []string{"::cue{}"}, WebVTTLines: 2, WebVTTWidth: "40%"}
+	},
 }
 
 type HeteroCase struct {
 	A      int    `json:"a"`
 	B      int    `json:"b"`
 	R      int    `json:"r"`
-	Writer  string `json:"writer"`
+	Writer string `json:"writer"`
 }
 
 func buildHetero(h HeteroCase) *astisub.Subtitles {
@@ -869,7 +879,7 @@ func init() {
 			core.Thorough: "token words L<=6 (cross-format L<=4); writer lattice B=3",
 		},
 		Assumptions: []string{"Go toolchain and standard library", "steps inside dependencies (bufio, encoding/xml, x/net/html, astits) are not counted: their loops are bounded by the input length", "instrumented build = plain build with inert hooks (validated in setup)"},
-		Instr:            instrRun, Replay: replay,
+		Instr:       instrRun, Replay: replay,
 		CrashIsViolation: true,
 	})
 }
